@@ -1,8 +1,9 @@
-"""Whole-pipeline driver used by several properties (C01, C02, C04, C05, C15): the REAL StreamingQueueCompressor is
-built by its real constructor (which spawns the real worker_thread closures as simulated threads), contigs are pushed
-through the real push(), finalize() runs for real (sync tokens, close, join, partial packs, metadata, footer) on the
-file-system model, and the result is read back by the real Decompressor. ZSTD is the lossless stub; the thread
-scheduler explores interleavings at Mutex/Condvar/Barrier points."""
+"""Whole-pipeline driver shared by C01, C02, C04, C05 and C15: the REAL StreamingQueueCompressor is built by its real
+constructor (which spawns the real worker_thread closures — here simulated threads), contigs go through the real push(),
+drain(), sync_and_flush() and finalize() (sync tokens, barrier rounds, classification, grouping, LZ, packs, metadata,
+footer) on the file-system model, and the result is read back by the real Decompressor. ZSTD is the lossless stub.
+The thread scheduler explores interleavings at every Mutex/RwLock/Condvar/Barrier/sleep point, bounded by a preemption
+bound (number of times a runnable thread is descheduled in favour of another); blocking switches are always explored."""
 import z3
 from mirsym.values import *
 from mirsym.values import b_and, b_or, b_not
@@ -28,7 +29,6 @@ def mk_config(e, **over):
 
 def kmer_canon(codes):
     """canonical k-mer value as ragc packs it (left-aligned 2-bit), independent restatement"""
-    k = len(codes)
     f = 0; r = 0
     for i, c in enumerate(codes):
         f |= c << (62 - 2 * i)
@@ -38,19 +38,36 @@ def kmer_canon(codes):
 
 
 class Pipeline(Instance):
+    """samples: [(sample name, [(contig name, [codes])])]; driver: 'api' (push* finalize), 'multi' (CLI multi-file mode: reference sample,
+    drain, sync_and_flush, other samples, finalize), 'single' (CLI single-file mode: drain after the first sample; concatenated_genomes with
+    a sync round every pack_size contigs)."""
     crates = ("ragc-core", "ragc-common")
 
-    def __init__(self, name, threads, samples, k=3, splitters=(), preempt=1, **cfg):
+    def __init__(self, name, threads, samples, k=3, splitters=(), preempt=1, driver="api", view="roundtrip", qcap=1 << 20, zstd="token", **cfg):
         Instance.__init__(self, name)
         self.threads, self.samples, self.k, self.splitters, self.cfg, self.preempt = threads, samples, k, splitters, cfg, preempt
+        self.driver, self.view, self.qcap, self.zstd = driver, view, qcap, zstd
+        self.overflow_checks = driver != "single"      # single-file mode relies on wrapping i32 priorities (known finding F7): release semantics there
         self.required_witnesses = ("finalized",)
         self.max_wall = 3000
+        self.n_concrete = 1
+        self.bounds = {"worker threads": threads, "input": f"{len(samples)} sample(s), contigs {[len(d) for _, cs in samples for _, d in cs]} bases (concrete), k={k}, {len(splitters)} splitter k-mers",
+                       "driver": driver, "queue capacity (bytes)": qcap, "zstd stub": zstd + " (deterministic lossless codec; 'token' always shrinks, 'store' never does)", "config": {n: (v.v if hasattr(v, 'v') else v) for n, v in cfg.items()},
+                       "schedules": f"every interleaving of producer and workers at lock/wait/barrier/sleep points with at most {preempt} preemption(s); blocking switches unbounded"}
 
-    def build(self, e):
+    # ---------------------------------------------------------------- driving the real API
+    def build(self, e, sched=True):
         from mirsym import models_io
         e.fs = models_io.FS()
-        s = Sched(e, max_switches=20000, max_preempt=self.preempt); e.sched = s
-        cfg = mk_config(e, k=Int(64, 0, self.k), num_threads=Int(64, 0, self.threads), **self.cfg)
+        e.h["zstd_mode"] = self.zstd          # the codec stub must be a function of its input here (one frame length per call, no free choice)
+        s = Sched(e, max_switches=50000, max_preempt=self.preempt if sched else 0)
+        s.deterministic = not sched
+        e.sched = s
+        over = dict(k=Int(64, 0, self.k), num_threads=Int(64, 0, self.threads), queue_capacity=Int(64, 0, self.qcap))
+        if self.driver == "single":
+            over["concatenated_genomes"] = True
+        over.update(self.cfg)
+        cfg = mk_config(e, **over)
         spl = MapObj(False, True)
         for w in self.splitters:
             spl.items.append([Int(64, 0, kmer_canon(w)), UNIT])
@@ -58,20 +75,33 @@ class Pipeline(Instance):
         e.prove(r.variant == 0, "pipe:create_failed", "with_splitters returned Err")
         return Cell(r.f[0])
 
-    def path(self, e):
-        comp = self.build(e)
-        for sname, contigs in self.samples:
-            for cname, data in contigs:
-                r = e.call_fn(CORE, "StreamingQueueCompressor::push", [Ref(comp), S(sname), S(cname), VecObj([Int(8, 0, x) for x in data])])
-                e.prove(r.variant == 0, "pipe:push_failed", "push returned Err")
-        r = e.call_fn(CORE, "StreamingQueueCompressor::finalize", [comp.v])
-        e.prove(r.variant == 0, "pipe:finalize_failed", "finalize returned Err")
-        e.witness("finalized")
-        e.sched.join_all()
-        return self.read_back(e)
+    def push(self, e, comp, sname, cname, data):
+        r = e.call_fn(CORE, "StreamingQueueCompressor::push", [Ref(comp), S(sname), S(cname), VecObj([Int(8, 0, x) for x in data])])
+        e.prove(r.variant == 0, "pipe:push_failed", "push returned Err")
 
+    def drive(self, e, comp):
+        for si, (sname, contigs) in enumerate(self.samples):
+            if si == 1 and self.driver == "single":
+                r = e.call_fn(CORE, "StreamingQueueCompressor::drain", [Ref(comp)]); e.prove(r.variant == 0, "pipe:drain_failed", "drain returned Err")
+                e.witness("drained")
+            for cname, data in contigs:
+                self.push(e, comp, sname, cname, data)
+            if si == 0 and self.driver == "multi":
+                r = e.call_fn(CORE, "StreamingQueueCompressor::drain", [Ref(comp)]); e.prove(r.variant == 0, "pipe:drain_failed", "drain returned Err")
+                r = e.call_fn(CORE, "StreamingQueueCompressor::sync_and_flush", [Ref(comp), e.str_slice(b"AAA#0_REF")]); e.prove(r.variant == 0, "pipe:sync_failed", "sync_and_flush returned Err")
+                e.witness("drained")
+        return e.call_fn(CORE, "StreamingQueueCompressor::finalize", [comp.v])
+
+    def run_pipeline(self, e, sched=True):
+        comp = self.build(e, sched)
+        r = self.drive(e, comp)
+        e.sched.join_all()
+        self._last_sched = e.sched
+        return r
+
+    # ---------------------------------------------------------------- reading back
     def read_back(self, e):
-        self._last_sched = e.sched; e.sched = None
+        e.sched = None
         cfg = e.struct("DecompressorConfig", verbosity=Int(32, 0, 0))
         r = e.call_fn(CORE, "Decompressor::open", [e.str_slice(PATH), cfg])
         e.prove(r.variant == 0, "pipe:open_failed", "Decompressor::open failed on the archive finalize() reported as written")
@@ -83,19 +113,109 @@ class Pipeline(Instance):
             if sname not in exp:
                 exp.append(sname)
         e.prove(got == exp, "pipe:sample_list", f"archive lists {got}, pushed {exp}")
-        out = {}
         for sname in exp:
             r = e.call_fn(CORE, "Decompressor::get_sample", [Ref(h), e.str_slice(sname)])
             e.prove(r.variant == 0, "pipe:extract_failed", f"get_sample({sname}) failed")
             cs = [(bytes(x.v for x in e.vec_items(t.f[0])), [x.v for x in e.vec_items(t.f[1])]) for t in e.vec_items(r.f[0])]
             want = [(c, list(d)) for sn, contigs in self.samples if sn == sname for c, d in contigs]
-            e.prove(cs == want, "pipe:roundtrip", f"sample {sname}: extracted {cs} != pushed {want}")
-            out[sname.decode()] = cs
-        return {"file": [x.v for x in e.fs.files[PATH].data]}
+            e.prove(cs == want, "pipe:roundtrip", f"sample {sname.decode()}: extracted {cs} != pushed {want}")
+        e.witness("extracted")
+
+    def file_bytes(self, e):
+        fd = e.fs.files.get(PATH)
+        return [x.v for x in fd.data] if fd is not None else None
+
+    def canonical(self, e, threads=1):
+        """File written by the same inputs with `threads` workers under ONE canonical schedule (no choices): reference for the
+        determinism and fault views. Cached per process (the sources cannot change within a run)."""
+        key = ("canon", threads)
+        c = self.__dict__.setdefault("_canon", {})
+        if key not in c:
+            saved = (self.threads, e.fs, e.sched)
+            self.threads = threads
+            try:
+                r = self.run_pipeline(e, sched=False)
+                if r.variant != 0:
+                    raise Unsupported("canonical run: finalize returned Err")
+                c[key] = self.file_bytes(e)
+            finally:
+                self.threads = saved[0]
+                if e.sched is not None:
+                    e.sched.shutdown()
+                e.fs, e.sched = saved[1], saved[2]
+        return c[key]
+
+    def path(self, e):
+        if self.view == "determinism":
+            return self.path_determinism(e)
+        if self.view == "fault":
+            return self.path_fault(e)
+        r = self.run_pipeline(e)
+        e.inputs["schedule"] = [x[1] for x in self._last_sched.log if x[0] == "run"][:400]
+        e.prove(r.variant == 0, "pipe:finalize_failed", "finalize returned Err")
+        e.witness("finalized")
+        if self._last_sched.preempts:
+            e.witness("preempted")
+        if self.view in ("roundtrip", "all"):
+            self.read_back(e)
+        return {"file": self.file_bytes(e)}
+
+    def path_determinism(self, e):
+        ref = self.canonical(e, 1)
+        r = self.run_pipeline(e)
+        e.inputs["schedule"] = [x[1] for x in self._last_sched.log if x[0] == "run"][:400]
+        e.prove(r.variant == 0, "pipe:finalize_failed", "finalize returned Err")
+        e.witness("finalized")
+        got = self.file_bytes(e)
+        if self._last_sched.preempts:
+            e.witness("preempted")
+        e.prove(got == ref, "det:archive_differs", f"archive written with {self.threads} worker(s) under this schedule differs from the 1-worker canonical archive "
+                f"({len(got)} vs {len(ref)} bytes, first difference at {next((i for i, (a, b) in enumerate(zip(got, ref)) if a != b), min(len(got), len(ref)))})")
+        return {"file": got}
+
+    def path_fault(self, e):
+        ref = self.canonical(e, self.threads)
+        N = len(ref)
+        phi = e.choose(N + 1, "phi")           # bytes that can be written before the device fails; N = no fault (vacuity witness)
+        comp = self.build(e, sched=False)
+        e.fs.fault_at = phi if phi < N else None
+        r = self.drive(e, comp)
+        e.sched.join_all()
+        self._last_sched = e.sched
+        got = self.file_bytes(e)
+        if phi == N:
+            e.prove(r.variant == 0, "fault:spurious_error", "finalize failed without any injected fault")
+            e.witness("no_fault_ok")
+        else:
+            e.witness("faulted" if e.fs.faulted else "fault_not_reached")
+            e.prove(e.fs.faulted, "fault:not_reached", f"the write covering byte {phi} was never attempted although the complete archive has {N} bytes")
+            e.prove(r.variant == 1, "fault:swallowed", f"finalize returned Ok although the write at offset {phi} failed ({len(got or [])} of {N} bytes on disk)")
+            e.witness("error_reported")
+        e.witness("finalized")
+        return {"file": got}
 
     def classify_panic(self, e, ex):
         return f"pipe:panic:{ex.where.split('::')[-1]}:{ex.kind}", str(ex)
 
+    def native(self, inp):
+        return "pipeline", {"threads": self.threads, "k": self.k, "splitters": [str(kmer_canon(w)) for w in self.splitters], "driver": self.driver, "qcap": self.qcap,
+                            "cfg": {n: (v.v if hasattr(v, "v") else v) for n, v in self.cfg.items()},
+                            "samples": [[sn.decode(), [[cn.decode(), list(d)] for cn, d in cs]] for sn, cs in self.samples], "runs": 40}
+
+    def confirm(self, viol, outs):
+        return any(("panic" in o or "crash" in o or o.get("ok") is False or o.get("timeout")) for o in outs.values())
+
+    def concrete_cases(self, rnd):
+        return []
+
+
+C1 = [0, 1, 2, 3, 0, 0, 1, 2, 2, 3, 1, 3, 3, 0, 2, 1, 1]
+C2 = [0, 1, 2, 3, 0, 0, 1, 2, 0, 3, 1, 3, 3, 0, 2, 1, 1]
+C3 = [2, 1, 0, 0, 1, 3, 3, 0, 2]
+SPL = [(0, 0, 1), (3, 3, 0)]
+ONE = [(b"s1", [(b"c1", C1[:11])])]
+TWO = [(b"s1", [(b"c1", C1), (b"c2", [3, 3, 2])]), (b"s2", [(b"c1", C2)])]
+THREE = [(b"s1", [(b"c1", C1), (b"c2", C3)]), (b"s2", [(b"c1", C2), (b"c2", C3)]), (b"s3", [(b"c1", C1)])]
 
 INSTANCES = {}
 
@@ -106,10 +226,15 @@ def _reg(i):
 
 
 _reg(Pipeline("empty_t1", 1, []))
-_reg(Pipeline("one_t1", 1, [(b"s1", [(b"c1", [0, 1, 2, 3, 0, 0, 1, 2, 2, 3, 1])])], splitters=[(0, 0, 1)]))
-_reg(Pipeline("one_t1_p2", 1, [(b"s1", [(b"c1", [0, 1, 2, 3, 0, 0, 1, 2, 2, 3, 1])])], splitters=[(0, 0, 1)], preempt=2))
-_reg(Pipeline("one_t2", 2, [(b"s1", [(b"c1", [0, 1, 2, 3, 0, 0, 1, 2, 2, 3, 1])])], splitters=[(0, 0, 1)], preempt=1))
-C1 = [0, 1, 2, 3, 0, 0, 1, 2, 2, 3, 1, 3, 3, 0, 2, 1, 1]
-C2 = [0, 1, 2, 3, 0, 0, 1, 2, 0, 3, 1, 3, 3, 0, 2, 1, 1]
-_reg(Pipeline("two_t1", 1, [(b"s1", [(b"c1", C1), (b"c2", [3, 3, 2])]), (b"s2", [(b"c1", C2)])], splitters=[(0, 0, 1), (3, 3, 0)], preempt=0))
-_reg(Pipeline("two_t2", 2, [(b"s1", [(b"c1", C1), (b"c2", [3, 3, 2])]), (b"s2", [(b"c1", C2)])], splitters=[(0, 0, 1), (3, 3, 0)], preempt=0))
+_reg(Pipeline("one_t1", 1, ONE, splitters=SPL[:1]))
+_reg(Pipeline("one_t2", 2, ONE, splitters=SPL[:1], preempt=1))
+_reg(Pipeline("two_t1", 1, TWO, splitters=SPL, preempt=0))
+_reg(Pipeline("two_t2", 2, TWO, splitters=SPL, preempt=0))
+_reg(Pipeline("multi_t1", 1, TWO, splitters=SPL, preempt=0, driver="multi"))
+_reg(Pipeline("multi_t2", 2, THREE, splitters=SPL, preempt=0, driver="multi"))
+_reg(Pipeline("single_t2", 2, THREE, splitters=SPL, preempt=0, driver="single", pack_size=Int(64, 0, 2)))
+_reg(Pipeline("det_multi_t2", 2, THREE, splitters=SPL, preempt=0, driver="multi", view="determinism"))
+_reg(Pipeline("det_api_t2", 2, TWO, splitters=SPL, preempt=1, driver="api", view="determinism"))
+_reg(Pipeline("fault_api_t1", 1, TWO, splitters=SPL, preempt=0, driver="api", view="fault"))
+_reg(Pipeline("det_single_t2", 2, THREE, splitters=SPL, preempt=0, driver="single", view="determinism", pack_size=Int(64, 0, 2)))
+_reg(Pipeline("det_single_t2_p1", 2, THREE, splitters=SPL, preempt=1, driver="single", view="determinism", pack_size=Int(64, 0, 2)))
